@@ -971,3 +971,623 @@ Proof.
       split; [constructor; [reflexivity|exact IH1]|].
       simpl rev. rewrite <- app_assoc. exact IH2.
 Qed.
+
+Lemma frames_match_ext t d1 d2 :
+  (forall f, In f d1 <-> In f d2) -> frames_match t d1 -> frames_match t d2.
+Proof.
+  intros H [H1 H2]. split.
+  - intros a Ha Hk. apply H. apply H1; assumption.
+  - intros s e k Hin. apply H2. apply H. exact Hin.
+Qed.
+
+(** what set_expressions builds from a good layout *)
+Lemma build_inv fs : layout_ok fs ->
+  Forall (fun r => r = SetOk) (snd (set_expressions td_empty fs)) /\
+  ((fs = [] /\ fst (set_expressions td_empty fs) = td_empty) \/
+   (wf_td (fst (set_expressions td_empty fs)) /\
+    frames_match (fst (set_expressions td_empty fs)) fs)).
+Proof.
+  intros (Hok & Hfop & Hweek).
+  destruct (set_expressions_inv fs td_empty []) as [H1 H2]; auto.
+  - left; auto.
+  - intros g f [].
+  - split; [exact H1|]. rewrite app_nil_r in H2.
+    destruct H2 as [[Hr Ht]|(Hwf & Hm & _)].
+    + left. split; [|exact Ht].
+      destruct fs as [|a fs']; [reflexivity|]. simpl in Hr. destruct (rev fs'); discriminate.
+    + right. split; [exact Hwf|]. eapply frames_match_ext; [|exact Hm].
+      intros f. symmetry. apply in_rev.
+Qed.
+
+(** ** minute_of *)
+
+Lemma minute_of_le v : inject_Z (minute_of v) <= v.
+Proof.
+  unfold minute_of. rewrite inject_Z_mult.
+  pose proof (Qfloor_le (v / 60)) as H.
+  assert (E : v == 60 * (v / 60)) by (field; lra).
+  set (q := v / 60) in *. change (inject_Z 60) with 60. lra.
+Qed.
+
+Lemma minute_of_lt v : v < inject_Z (minute_of v + 60).
+Proof.
+  unfold minute_of. rewrite inject_Z_plus, inject_Z_mult.
+  pose proof (Qlt_floor (v / 60)) as H. rewrite inject_Z_plus in H.
+  assert (E : v == 60 * (v / 60)) by (field; lra).
+  set (q := v / 60) in *. change (inject_Z 60) with 60. change (inject_Z 1) with 1 in H. lra.
+Qed.
+
+Lemma minute_of_mod v : (minute_of v mod 60 = 0)%Z.
+Proof. unfold minute_of. rewrite Z.mul_comm. apply Z_mod_mult. Qed.
+
+Lemma mult60_gap a m : (a mod 60 = 0)%Z -> (m mod 60 = 0)%Z -> (m < a)%Z -> (m + 60 <= a)%Z.
+Proof.
+  intros Ha Hm Hlt.
+  pose proof (Z.div_mod a 60). pose proof (Z.div_mod m 60). lia.
+Qed.
+
+Lemma minute_le_iff a v : (a mod 60 = 0)%Z -> (inject_Z a <= v <-> (a <= minute_of v)%Z).
+Proof.
+  intros Ha. split; intros H.
+  - destruct (Z_le_gt_dec a (minute_of v)) as [|C]; [assumption|exfalso].
+    assert (Hg : (minute_of v + 60 <= a)%Z) by (apply mult60_gap; [exact Ha|apply minute_of_mod|lia]).
+    rewrite Zle_Qle in Hg. pose proof (minute_of_lt v). lra.
+  - rewrite Zle_Qle in H. pose proof (minute_of_le v). lra.
+Qed.
+
+Lemma minute_lt_iff a v : (a mod 60 = 0)%Z -> (v < inject_Z a <-> (minute_of v < a)%Z).
+Proof.
+  intros Ha. split; intros H.
+  - rewrite Zlt_Qlt. pose proof (minute_of_le v). lra.
+  - assert (Hg : (minute_of v + 60 <= a)%Z) by (apply mult60_gap; [exact Ha|apply minute_of_mod|lia]).
+    rewrite Zle_Qle in Hg. pose proof (minute_of_lt v). lra.
+Qed.
+
+(** ** map_lookup_mid *)
+
+Lemma lookup_cons2 m a b q :
+  map_lookup_mid m (a :: b :: q) =
+  match map_lookup_mid m (b :: q) with
+  | Some r => Some r
+  | None => if in_map m a then Some (a :: b :: q) else None
+  end.
+Proof. reflexivity. Qed.
+
+Lemma lookup_mid_spec m l : forall r, map_lookup_mid m l = Some r ->
+  exists pre e rest, l = pre ++ r /\ r = e :: rest /\ rest <> [] /\ in_map m e = true.
+Proof.
+  induction l as [|a l IH]; intros r H; [discriminate|].
+  destruct l as [|b q]; [discriminate|].
+  rewrite lookup_cons2 in H.
+  destruct (map_lookup_mid m (b :: q)) as [r'|] eqn:E.
+  - injection H as <-. destruct (IH r' eq_refl) as (pre & e & rest & H1 & H2 & H3 & H4).
+    exists (a :: pre), e, rest. simpl. rewrite <- H1. auto.
+  - destruct (in_map m a) eqn:Ein; [|discriminate]. injection H as <-.
+    exists [], a, (b :: q). repeat split; auto. discriminate.
+Qed.
+
+Lemma in_map_iff m e : (m mod 60 = 0)%Z -> (e_start e mod 60 = 0)%Z ->
+  (in_map m e = true <-> (e_start e <= m < e_end e)%Z).
+Proof.
+  intros Hm Hs. unfold in_map.
+  assert (E : ((m - e_start e) mod 60 =? 0)%Z = true)
+    by (apply Z.eqb_eq; rewrite Zminus_mod, Hm, Hs; reflexivity).
+  rewrite E, andb_true_r, andb_true_iff, Z.leb_le, Z.ltb_lt. tauto.
+Qed.
+
+Lemma lookup_mid_exists m (Hm : (m mod 60 = 0)%Z) l : forall a,
+  chain link (a :: l) -> Forall elem_ok (a :: l) ->
+  (e_start a <= m)%Z -> (m < e_start (last (a :: l) dflt))%Z ->
+  map_lookup_mid m (a :: l) <> None.
+Proof.
+  induction l as [|b q IH]; intros a Hc Hok Hs He.
+  - simpl in He. lia.
+  - rewrite lookup_cons2. rewrite last_cons_cons in He.
+    destruct (Z_le_gt_dec (e_start b) m) as [Hb|Hb].
+    + assert (map_lookup_mid m (b :: q) <> None).
+      { apply IH; [eapply chain_tail; exact Hc|inversion Hok; assumption|exact Hb|exact He]. }
+      destruct (map_lookup_mid m (b :: q)); congruence.
+    + destruct (map_lookup_mid m (b :: q)); [discriminate|].
+      destruct Hc as [[Hl _] _]. inversion Hok as [|? ? [(_ & Hsa & _) _] _]; subst.
+      assert (E : in_map m a = true) by (apply in_map_iff; [exact Hm|exact Hsa|lia]).
+      rewrite E. discriminate.
+Qed.
+
+(** ** get_element finds the element that contains the departure *)
+
+Lemma wf_last_elem t : wf_td t ->
+  exists init, td_elems t = init ++ [mkElem (td_endstart t) max_time 0].
+Proof.
+  intros Hwf. destruct (wf_first _ Hwf) as (f0 & r0 & Hf0 & _).
+  assert (Hne : td_elems t <> []) by (rewrite Hf0; discriminate).
+  exists (removelast (td_elems t)).
+  rewrite (app_removelast_last dflt Hne) at 1. f_equal.
+  destruct (wf_last _ Hwf) as [H1 H2]. pose proof (wf_endstart _ Hwf) as H3.
+  destruct (last (td_elems t) dflt) as [a b c]. simpl in *. subst. reflexivity.
+Qed.
+
+Lemma elem_ok_in t a : wf_td t -> In a (td_elems t) -> elem_ok a.
+Proof. intros Hwf Ha. pose proof (wf_elems _ Hwf) as H. rewrite Forall_forall in H. auto. Qed.
+
+Lemma get_element_spec t v : wf_td t -> 0 <= v -> v < inject_Z max_time ->
+  exists pre el rest, td_elems t = pre ++ el :: rest /\
+    get_element t v = Some (el :: rest) /\
+    inject_Z (e_start el) <= v /\ v < inject_Z (e_end el).
+Proof.
+  intros Hwf Hv0 Hvmax.
+  destruct (wf_first _ Hwf) as (f0 & r0 & Hf0 & Hfs & Hfk).
+  pose proof (wf_chain _ Hwf) as Hc. pose proof (wf_elems _ Hwf) as Hok.
+  unfold get_element. rewrite Hf0. rewrite <- Hf0.
+  assert (Hf0ok : elem_ok f0) by (apply (elem_ok_in t); [exact Hwf|rewrite Hf0; left; reflexivity]).
+  destruct (Z.ltb_spec (minute_of v) (e_end f0)) as [H1|H1].
+  - exists [], f0, r0. split; [exact Hf0|]. split; [rewrite Hf0; reflexivity|].
+    split; [rewrite Hfs; exact Hv0|].
+    apply minute_lt_iff; [destruct Hf0ok as [(_ & _ & H) _]; exact H|exact H1].
+  - destruct (wf_last_elem t Hwf) as (init & Hinit).
+    destruct (Z.leb_spec (td_endstart t) (minute_of v)) as [H2|H2].
+    + exists init, (mkElem (td_endstart t) max_time 0), []. split; [exact Hinit|].
+      split; [reflexivity|]. simpl. split; [|exact Hvmax].
+      assert (Hlok : elem_ok (mkElem (td_endstart t) max_time 0))
+        by (apply (elem_ok_in t); [exact Hwf|rewrite Hinit; apply in_or_app; right; left; reflexivity]).
+      apply minute_le_iff; [destruct Hlok as [(_ & H & _) _]; exact H|exact H2].
+    + unfold map_lookup. rewrite Hf0. cbn [tl].
+      rewrite (wf_endstart _ Hwf), Hf0 in H2. rewrite Hf0 in Hc, Hok.
+      destruct r0 as [|b q].
+      { exfalso. simpl in H2. destruct Hf0ok as [(? & _) _]. lia. }
+      rewrite last_cons_cons in H2.
+      destruct Hc as [[Hl _] Hc]. inversion Hok as [|? ? _ Hok']; subst.
+      pose proof (lookup_mid_exists _ (minute_of_mod v) q b Hc Hok') as Hex.
+      destruct (map_lookup_mid (minute_of v) (b :: q)) as [r|] eqn:E;
+        [|exfalso; apply Hex; [lia|exact H2|reflexivity]].
+      destruct (lookup_mid_spec _ _ _ E) as (pre & el & rest & Hp & Hr & _ & Hin).
+      exists (f0 :: pre), el, rest. subst r.
+      split; [simpl; rewrite <- Hp; reflexivity|]. split; [reflexivity|].
+      assert (Helok : elem_ok el).
+      { rewrite Forall_forall in Hok'. apply Hok'. rewrite Hp. apply in_or_app; right; left; reflexivity. }
+      destruct Helok as [(_ & Hs & He) _].
+      apply in_map_iff in Hin; [|apply minute_of_mod|exact Hs].
+      split; [apply minute_le_iff; [exact Hs|lia]|apply minute_lt_iff; [exact He|lia]].
+Qed.
+
+Lemma get_element_late t v : wf_td t -> inject_Z max_time <= v ->
+  get_element t v = Some [mkElem (td_endstart t) max_time 0].
+Proof.
+  intros Hwf Hv.
+  destruct (wf_first _ Hwf) as (f0 & r0 & Hf0 & Hfs & Hfk).
+  pose proof (wf_contig _ Hwf) as Hct. rewrite Hf0 in Hct.
+  pose proof (contig_last_le _ _ Hct) as H1. rewrite <- Hf0 in H1.
+  destruct (wf_last _ Hwf) as [Hle _]. rewrite Hle in H1.
+  assert (Hm : (max_time <= minute_of v)%Z) by (apply minute_le_iff; [apply max_time_mod|exact Hv]).
+  destruct (wf_last_elem t Hwf) as (init & Hinit).
+  assert (Hlok : elem_ok (mkElem (td_endstart t) max_time 0))
+    by (apply (elem_ok_in t); [exact Hwf|rewrite Hinit; apply in_or_app; right; left; reflexivity]).
+  destruct Hlok as [(H2 & _) _]. simpl in H2.
+  unfold get_element. rewrite Hf0.
+  destruct (Z.ltb_spec (minute_of v) (e_end f0)) as [C|_]; [lia|].
+  destruct (Z.leb_spec (td_endstart t) (minute_of v)) as [_|C]; [reflexivity|lia].
+Qed.
+
+(** ** value_at_value through the located element *)
+
+Lemma vav_located t vals v el rest x :
+  wf_td t -> vals_ok vals -> get_element t v = Some (el :: rest) ->
+  value_at_value t vals v = Val x ->
+  exists x', walkH vals 0 (inject_Z (e_end el) - v) (e_expr el) rest = Val x' /\ x == x'.
+Proof.
+  intros Hwf Hv Hg H.
+  pose proof (value_at_value_spec t vals v el rest Hv (wf_map _ Hwf) Hg) as Hs.
+  rewrite H in Hs. apply tdres_eq_val_l in Hs. exact Hs.
+Qed.
+
+Lemma vav_late t vals v x :
+  wf_td t -> vals_ok vals -> inject_Z max_time <= v ->
+  value_at_value t vals v = Val x -> x == 0 /\ vals 0%nat == 0.
+Proof.
+  intros Hwf Hv Hlate H.
+  destruct (vav_located t vals v _ _ x Hwf Hv (get_element_late t v Hwf Hlate) H) as (x' & Hw & Hx).
+  simpl in Hw.
+  assert (H01 : 0 < 1) by lra.
+  destruct (walkH_inv _ _ _ _ _ _ Hv H01 Hw) as [[Hd Hx']|[(Hd & Hl & Hx')|(Hd & Hl & y & Hy & Hx')]].
+  - split; [lra|exact Hd].
+  - exfalso. lra.
+  - discriminate.
+Qed.
+
+Lemma app_eq_cases {A} (p1 : list A) : forall l1 p2 l2, p1 ++ l1 = p2 ++ l2 ->
+  (exists m, l1 = m ++ l2) \/ (exists m, l2 = m ++ l1).
+Proof.
+  induction p1 as [|a p1 IH]; intros l1 p2 l2 H.
+  - left. exists p2. exact H.
+  - destruct p2 as [|b p2].
+    + right. exists (a :: p1). symmetry. exact H.
+    + simpl in H. injection H as _ H. apply (IH _ _ _ H).
+Qed.
+
+Lemma contig_hd_le x r b : contig (x :: r) -> In b r -> (e_end x <= e_start b)%Z.
+Proof.
+  intros Hc Hb. apply in_split in Hb. destruct Hb as (p & q & ->).
+  eapply contig_app_le. exact Hc.
+Qed.
+
+Lemma contig_unique l : contig l -> forall a b v, In a l -> In b l ->
+  inject_Z (e_start a) <= v -> v < inject_Z (e_end a) ->
+  inject_Z (e_start b) <= v -> v < inject_Z (e_end b) -> a = b.
+Proof.
+  induction l as [|x r IH]; intros Hc a b v Ha Hb Ha1 Ha2 Hb1 Hb2; [destruct Ha|].
+  destruct Ha as [<-|Ha], Hb as [<-|Hb].
+  - reflexivity.
+  - exfalso. pose proof (contig_hd_le _ _ _ Hc Hb) as H. rewrite Zle_Qle in H. lra.
+  - exfalso. pose proof (contig_hd_le _ _ _ Hc Ha) as H. rewrite Zle_Qle in H. lra.
+  - apply (IH (contig_tail _ _ Hc) a b v); assumption.
+Qed.
+
+(** ** The theorems over any well-formed structure *)
+
+Lemma nonneg_wf t vals v x :
+  wf_td t -> vals_ok vals -> 0 <= v -> value_at_value t vals v = Val x -> 0 <= x.
+Proof.
+  intros Hwf Hv Hv0 H.
+  destruct (Qlt_le_dec v (inject_Z max_time)) as [Hlt|Hge].
+  - destruct (get_element_spec t v Hwf Hv0 Hlt) as (pre & el & rest & Hl & Hg & Hs & He).
+    destruct (vav_located _ _ _ _ _ _ Hwf Hv Hg H) as (x' & Hw & Hx).
+    pose proof (wf_contig _ Hwf) as Hct. rewrite Hl in Hct. apply contig_app_r in Hct.
+    assert (0 <= x').
+    { eapply (walkH_nonneg vals Hv); [| | |exact Hw];
+        [apply contig_lens; eapply contig_tail; exact Hct|lra|lra]. }
+    lra.
+  - destruct (vav_late _ _ _ _ Hwf Hv Hge H). lra.
+Qed.
+
+Lemma arrival_wf t vals v x :
+  wf_td t -> vals_ok vals -> 0 <= v -> v < inject_Z max_time ->
+  value_at_value t vals v = Val x -> v + x <= inject_Z max_time.
+Proof.
+  intros Hwf Hv Hv0 Hlt H.
+  destruct (get_element_spec t v Hwf Hv0 Hlt) as (pre & el & rest & Hl & Hg & Hs & He).
+  destruct (vav_located _ _ _ _ _ _ Hwf Hv Hg H) as (x' & Hw & Hx).
+  pose proof (wf_contig _ Hwf) as Hct. rewrite Hl in Hct. apply contig_app_r in Hct.
+  assert (H01 : 0 < 1) by lra.
+  assert (Hp : v <= inject_Z (e_end el)) by lra.
+  pose proof (walkH_arrival_le vals Hv rest el _ 0 v x' Hct H01 Hp Hw) as Ha.
+  destruct (wf_last _ Hwf) as [Hle _]. rewrite Hl, last_app_cons in Hle. rewrite Hle in Ha. lra.
+Qed.
+
+Lemma fifo_wf t vals v1 v2 x1 x2 :
+  wf_td t -> vals_ok vals -> 0 <= v1 -> v1 <= v2 ->
+  value_at_value t vals v1 = Val x1 -> value_at_value t vals v2 = Val x2 ->
+  v1 + x1 <= v2 + x2.
+Proof.
+  intros Hwf Hv Hv0 Hle H1 H2.
+  assert (H01 : 0 < 1) by lra. assert (H00 : 0 <= 0) by lra.
+  destruct (Qlt_le_dec v2 (inject_Z max_time)) as [Hlt2|Hge2].
+  - assert (Hlt1 : v1 < inject_Z max_time) by lra.
+    assert (Hv20 : 0 <= v2) by lra.
+    destruct (get_element_spec t v1 Hwf Hv0 Hlt1) as (pre1 & el1 & rest1 & Hl1 & Hg1 & Hs1 & He1).
+    destruct (get_element_spec t v2 Hwf Hv20 Hlt2) as (pre2 & el2 & rest2 & Hl2 & Hg2 & Hs2 & He2).
+    destruct (vav_located _ _ _ _ _ _ Hwf Hv Hg1 H1) as (x1' & Hw1 & Hx1).
+    destruct (vav_located _ _ _ _ _ _ Hwf Hv Hg2 H2) as (x2' & Hw2 & Hx2).
+    pose proof (wf_contig _ Hwf) as Hct.
+    assert (Hct1 : contig (el1 :: rest1)) by (rewrite Hl1 in Hct; apply contig_app_r in Hct; exact Hct).
+    assert (Hct2 : contig (el2 :: rest2)) by (rewrite Hl2 in Hct; apply contig_app_r in Hct; exact Hct).
+    assert (Heq : pre1 ++ el1 :: rest1 = pre2 ++ el2 :: rest2) by congruence.
+    assert (Hgoal : v1 + x1' <= v2 + x2'); [|lra].
+    destruct (app_eq_cases _ _ _ _ Heq) as [[m Hm]|[m Hm]].
+    + destruct m as [|a m'].
+      * simpl in Hm. injection Hm as <- <-.
+        eapply (walkH_mono vals Hv rest1 el1 Hct1); [| | | |exact Hw1|exact Hw2]; lra.
+      * simpl in Hm. injection Hm as <- ->.
+        eapply (fifo_suffix vals Hv m' el1 _ 0 v1 el2 rest2 v2 x1' x2' Hct1); try lra; [exact Hw1|exact Hw2].
+    + destruct m as [|a m'].
+      * simpl in Hm. injection Hm as <- <-.
+        eapply (walkH_mono vals Hv rest2 el2 Hct2); [| | | |exact Hw1|exact Hw2]; lra.
+      * exfalso. simpl in Hm. injection Hm as <- ->.
+        pose proof (contig_app_le _ _ _ _ Hct2) as Hc. rewrite Zle_Qle in Hc. lra.
+  - destruct (vav_late _ _ _ _ Hwf Hv Hge2 H2) as [Hx2 _].
+    destruct (Qlt_le_dec v1 (inject_Z max_time)) as [Hlt1|Hge1].
+    + pose proof (arrival_wf _ _ _ _ Hwf Hv Hv0 Hlt1 H1). lra.
+    + destruct (vav_late _ _ _ _ Hwf Hv Hge1 H1) as [Hx1 _]. lra.
+Qed.
+
+Lemma inside_wf t vals s e k v x :
+  wf_td t -> vals_ok vals -> In (mkElem s e k) (td_elems t) ->
+  0 <= v -> v < inject_Z max_time ->
+  inject_Z s <= v -> v < inject_Z e -> v + vals k <= inject_Z e ->
+  value_at_value t vals v = Val x -> x == vals k.
+Proof.
+  intros Hwf Hv Hin Hv0 Hlt Hs He Hroom H.
+  destruct (get_element_spec t v Hwf Hv0 Hlt) as (pre & el & rest & Hl & Hg & Hs' & He').
+  destruct (vav_located _ _ _ _ _ _ Hwf Hv Hg H) as (x' & Hw & Hx).
+  assert (Hel : el = mkElem s e k).
+  { apply (contig_unique _ (wf_contig _ Hwf) el (mkElem s e k) v); auto.
+    rewrite Hl. apply in_or_app; right; left; reflexivity. }
+  subst el. simpl in Hw.
+  assert (H01 : 0 < 1) by lra.
+  destruct (walkH_inv _ _ _ _ _ _ Hv H01 Hw) as [[Hd Hx']|[(Hd & Hl' & Hx')|(Hd & Hl' & y & Hy & Hx')]]; lra.
+Qed.
+
+Lemma outside_wf t vals v x :
+  wf_td t -> vals_ok vals -> 0 <= v ->
+  (forall a, In a (td_elems t) -> e_expr a <> 0%nat ->
+     ~ (inject_Z (e_start a) <= v /\ v < inject_Z (e_end a))) ->
+  (forall a, In a (td_elems t) -> e_expr a <> 0%nat ->
+     v <= inject_Z (e_start a) -> v + vals 0%nat <= inject_Z (e_start a)) ->
+  value_at_value t vals v = Val x -> x == vals 0%nat.
+Proof.
+  intros Hwf Hv Hv0 Hout Hroom H.
+  assert (H01 : 0 < 1) by lra.
+  destruct (Qlt_le_dec v (inject_Z max_time)) as [Hlt|Hge].
+  - destruct (get_element_spec t v Hwf Hv0 Hlt) as (pre & el & rest & Hl & Hg & Hs & He).
+    destruct (vav_located _ _ _ _ _ _ Hwf Hv Hg H) as (x' & Hw & Hx).
+    assert (Hin : In el (td_elems t)) by (rewrite Hl; apply in_or_app; right; left; reflexivity).
+    assert (Hk : e_expr el = 0%nat).
+    { destruct (Nat.eq_dec (e_expr el) 0) as [|C]; [assumption|].
+      exfalso. apply (Hout el Hin C). split; assumption. }
+    rewrite Hk in Hw.
+    destruct (walkH_inv _ _ _ _ _ _ Hv H01 Hw) as [[Hd Hx']|[(Hd & Hl' & Hx')|(Hd & Hl' & y & Hy & Hx')]];
+      try lra.
+    exfalso. destruct rest as [|b q]; [discriminate|].
+    pose proof (wf_chain _ Hwf) as Hc. rewrite Hl in Hc.
+    destruct (chain_app_mid _ _ _ _ _ Hc) as [Hlk Hkk].
+    assert (Hinb : In b (td_elems t)) by (rewrite Hl; apply in_or_app; right; right; left; reflexivity).
+    pose proof (Hroom b Hinb (Hkk Hk)) as Hr. rewrite <- Hlk in Hr. lra.
+  - destruct (vav_late _ _ _ _ Hwf Hv Hge H). lra.
+Qed.
+
+Lemma lookup_mid_some m f : in_map m f = true -> forall p q, q <> [] ->
+  map_lookup_mid m (p ++ f :: q) <> None.
+Proof.
+  intros Hin p. induction p as [|x p IH]; intros q Hq.
+  - destruct q as [|b q']; [congruence|]. simpl app. rewrite lookup_cons2, Hin.
+    destruct (map_lookup_mid m (b :: q')); discriminate.
+  - simpl app. specialize (IH q Hq).
+    destruct (p ++ f :: q) as [|y r] eqn:E; [destruct p; discriminate|].
+    rewrite lookup_cons2. destruct (map_lookup_mid m (y :: r)); [discriminate|congruence].
+Qed.
+
+Lemma lookup_located t v r :
+  wf_td t -> map_lookup (minute_of v) t = Some r ->
+  exists el rest, r = el :: rest /\ In el (td_elems t) /\
+    inject_Z (e_start el) <= v /\ v < inject_Z (e_end el).
+Proof.
+  intros Hwf H. unfold map_lookup in H.
+  destruct (lookup_mid_spec _ _ _ H) as (pre & el & rest & Hp & Hr & _ & Hin).
+  exists el, rest. split; [exact Hr|].
+  assert (Hel : In el (td_elems t)).
+  { destruct (td_elems t) as [|f0 r0]; [destruct pre; discriminate|]. simpl in Hp.
+    right. rewrite Hp, Hr. apply in_or_app; right; left; reflexivity. }
+  split; [exact Hel|].
+  destruct (elem_ok_in t el Hwf Hel) as [(_ & Hs & He) _].
+  apply in_map_iff in Hin; [|apply minute_of_mod|exact Hs].
+  split; [apply minute_le_iff; [exact Hs|lia]|apply minute_lt_iff; [exact He|lia]].
+Qed.
+
+Lemma lookup_frame_wf t v s e k :
+  wf_td t -> In (mkElem s e k) (td_elems t) -> k <> 0%nat ->
+  inject_Z s <= v -> v < inject_Z e -> expression_at_value t v = k.
+Proof.
+  intros Hwf Hin Hk Hs He.
+  unfold expression_at_value. rewrite (wf_map _ Hwf).
+  destruct (wf_first _ Hwf) as (f0 & r0 & Hf0 & Hfs & Hfk).
+  assert (Hin0 : In (mkElem s e k) r0).
+  { rewrite Hf0 in Hin. destruct Hin as [C|Hin]; [|exact Hin]. subst f0. simpl in Hfk. congruence. }
+  apply in_split in Hin0. destruct Hin0 as (p & q & Hr0).
+  assert (Hq : q <> []).
+  { intros ->. destruct (wf_last _ Hwf) as [_ Hlk].
+    rewrite Hf0, Hr0 in Hlk.
+    change (f0 :: p ++ [mkElem s e k]) with ((f0 :: p) ++ [mkElem s e k]) in Hlk.
+    rewrite last_app_cons in Hlk. simpl in Hlk. congruence. }
+  destruct (elem_ok_in t _ Hwf Hin) as [(_ & Hsm & Hem) _]. simpl in Hsm, Hem.
+  assert (Him : in_map (minute_of v) (mkElem s e k) = true).
+  { apply in_map_iff; [apply minute_of_mod|exact Hsm|]. simpl.
+    split; [apply minute_le_iff; assumption|apply minute_lt_iff; assumption]. }
+  pose proof (lookup_mid_some _ _ Him p q Hq) as Hex.
+  destruct (map_lookup (minute_of v) t) as [r|] eqn:E.
+  - destruct (lookup_located t v r Hwf E) as (el & rest & -> & Hel & Hs' & He').
+    assert (el = mkElem s e k)
+      by (apply (contig_unique _ (wf_contig _ Hwf) el (mkElem s e k) v); auto).
+    subst el. reflexivity.
+  - exfalso. apply Hex. unfold map_lookup in E. rewrite Hf0, Hr0 in E. exact E.
+Qed.
+
+Lemma lookup_default_wf t v :
+  wf_td t ->
+  (forall a, In a (td_elems t) -> e_expr a <> 0%nat ->
+     ~ (inject_Z (e_start a) <= v /\ v < inject_Z (e_end a))) ->
+  expression_at_value t v = 0%nat.
+Proof.
+  intros Hwf Hout. unfold expression_at_value. rewrite (wf_map _ Hwf).
+  destruct (map_lookup (minute_of v) t) as [r|] eqn:E; [|reflexivity].
+  destruct (lookup_located t v r Hwf E) as (el & rest & -> & Hel & Hs' & He').
+  destruct (Nat.eq_dec (e_expr el) 0) as [|C]; [assumption|].
+  exfalso. apply (Hout el Hel C). split; assumption.
+Qed.
+
+Lemma total_wf t vals B v :
+  wf_td t -> vals_ok vals -> (forall k, vals k <= B) ->
+  0 <= v -> v + B <= inject_Z max_time ->
+  exists x, value_at_value t vals v = Val x.
+Proof.
+  intros Hwf Hv HB Hv0 Hroom.
+  assert (H01 : 0 < 1) by lra.
+  destruct (Qlt_le_dec v (inject_Z max_time)) as [Hlt|Hge].
+  - destruct (get_element_spec t v Hwf Hv0 Hlt) as (pre & el & rest & Hl & Hg & Hs & He).
+    pose proof (wf_contig _ Hwf) as Hct. rewrite Hl in Hct. apply contig_app_r in Hct.
+    destruct (wf_last _ Hwf) as [Hle _]. rewrite Hl, last_app_cons in Hle.
+    destruct (walkH_total vals Hv B HB rest el (e_expr el) 0 v Hct H01) as [x Hx].
+    + lra.
+    + rewrite Hle. lra.
+    + pose proof (value_at_value_spec t vals v el rest Hv (wf_map _ Hwf) Hg) as Hsp.
+      rewrite Hx in Hsp. destruct (tdres_eq_val _ _ Hsp) as (y & Hy & _). exists y; exact Hy.
+  - (* only possible when B = 0, hence every expression is 0 *)
+    pose proof (value_at_value_spec t vals v _ _ Hv (wf_map _ Hwf) (get_element_late t v Hwf Hge)) as Hsp.
+    simpl in Hsp. unfold walkH in Hsp. rewrite hstep_zero in Hsp.
+    + destruct (tdres_eq_val _ _ Hsp) as (y & Hy & _). exists y; exact Hy.
+    + pose proof (Hv 0%nat). pose proof (HB 0%nat). lra.
+Qed.
+
+(* ------------------------------------------------------------------ *)
+(** * Part C.  The C17 theorems for the structure built by set_expressions *)
+
+Definition built (fs : list (Z * Z * nat)) : td := fst (set_expressions td_empty fs).
+
+Lemma vav_empty vals v : value_at_value td_empty vals v = Val (vals 0%nat).
+Proof. reflexivity. Qed.
+
+Lemma frame_elem_not_in t fs v :
+  frames_match t fs -> (forall f, In f fs -> ~ in_frame v f) ->
+  forall a, In a (td_elems t) -> e_expr a <> 0%nat ->
+    ~ (inject_Z (e_start a) <= v /\ v < inject_Z (e_end a)).
+Proof.
+  intros [Hm _] Hout a Ha Hk. specialize (Hout _ (Hm a Ha Hk)). exact Hout.
+Qed.
+
+Lemma C17_accepts_proof fs :
+  layout_ok fs -> Forall (fun r => r = SetOk) (snd (set_expressions td_empty fs)).
+Proof. intros H. apply (build_inv fs H). Qed.
+
+Lemma C17_frame_lookup_proof fs v :
+  layout_ok fs -> 0 <= v -> v < inject_Z max_time ->
+  (forall s e k, In (s, e, k) fs -> in_frame v (s, e, k) ->
+     expression_at_value (fst (set_expressions td_empty fs)) v = k) /\
+  ((forall f, In f fs -> ~ in_frame v f) ->
+     expression_at_value (fst (set_expressions td_empty fs)) v = 0%nat).
+Proof.
+  intros Hlay _ _.
+  destruct (build_inv fs Hlay) as [_ [[-> Ht]|[Hwf Hm]]].
+  - split; [intros s e k []|intros _; reflexivity].
+  - split.
+    + intros s e k Hin [Hs He]. destruct Hm as [_ Hm2]. destruct (Hm2 _ _ _ Hin) as [Hel Hk].
+      apply (lookup_frame_wf _ v s e k Hwf Hel Hk Hs He).
+    + intros Hout. apply (lookup_default_wf _ v Hwf).
+      apply (frame_elem_not_in _ fs v Hm Hout).
+Qed.
+
+Lemma C17_nonneg_proof fs vals v x :
+  layout_ok fs -> vals_ok vals -> 0 <= v ->
+  value_at_value (fst (set_expressions td_empty fs)) vals v = Val x -> 0 <= x.
+Proof.
+  intros Hlay Hv Hv0 H.
+  destruct (build_inv fs Hlay) as [_ [[-> Ht]|[Hwf Hm]]].
+  - simpl in H. injection H as <-. apply Hv.
+  - apply (nonneg_wf _ vals v x Hwf Hv Hv0 H).
+Qed.
+
+Lemma C17_fifo_proof fs vals v1 v2 x1 x2 :
+  layout_ok fs -> vals_ok vals -> 0 <= v1 -> v1 <= v2 ->
+  value_at_value (fst (set_expressions td_empty fs)) vals v1 = Val x1 ->
+  value_at_value (fst (set_expressions td_empty fs)) vals v2 = Val x2 ->
+  v1 + x1 <= v2 + x2.
+Proof.
+  intros Hlay Hv Hv0 Hle H1 H2.
+  destruct (build_inv fs Hlay) as [_ [[-> Ht]|[Hwf Hm]]].
+  - simpl in H1, H2. injection H1 as <-. injection H2 as <-. lra.
+  - apply (fifo_wf _ vals v1 v2 x1 x2 Hwf Hv Hv0 Hle H1 H2).
+Qed.
+
+Lemma C17_inside_one_frame_proof fs vals s e k v x :
+  layout_ok fs -> vals_ok vals -> In (s, e, k) fs ->
+  inject_Z s <= v -> v < inject_Z e -> v + vals k <= inject_Z e ->
+  value_at_value (fst (set_expressions td_empty fs)) vals v = Val x -> x == vals k.
+Proof.
+  intros Hlay Hv Hin Hs He Hroom H.
+  destruct (build_inv fs Hlay) as [_ [[-> Ht]|[Hwf Hm]]]; [destruct Hin|].
+  destruct Hlay as (Hok & _ & _). rewrite Forall_forall in Hok.
+  destruct (Hok _ Hin) as [(Hs0 & _ & _ & _ & Hemax) _].
+  rewrite Zle_Qle in Hs0. rewrite Zlt_Qlt in Hemax. change (inject_Z 0) with 0 in Hs0.
+  destruct Hm as [_ Hm2]. destruct (Hm2 _ _ _ Hin) as [Hel _].
+  apply (inside_wf _ vals s e k v x Hwf Hv Hel); try assumption; lra.
+Qed.
+
+Lemma C17_outside_frames_proof fs vals v x :
+  layout_ok fs -> vals_ok vals -> 0 <= v ->
+  (forall f, In f fs -> ~ in_frame v f) ->
+  (forall s e k, In (s, e, k) fs -> v <= inject_Z s -> v + vals 0%nat <= inject_Z s) ->
+  value_at_value (fst (set_expressions td_empty fs)) vals v = Val x -> x == vals 0%nat.
+Proof.
+  intros Hlay Hv Hv0 Hout Hroom H.
+  destruct (build_inv fs Hlay) as [_ [[-> Ht]|[Hwf Hm]]].
+  - simpl in H. injection H as <-. reflexivity.
+  - apply (outside_wf _ vals v x Hwf Hv Hv0).
+    + apply (frame_elem_not_in _ fs v Hm Hout).
+    + intros a Ha Hk. destruct Hm as [Hm1 _]. apply (Hroom _ _ _ (Hm1 a Ha Hk)).
+    + exact H.
+Qed.
+
+Lemma C17_total_proof fs vals B v :
+  layout_ok fs -> vals_ok vals -> (forall k, vals k <= B) ->
+  0 <= v -> v + B <= inject_Z max_time ->
+  exists x, value_at_value (fst (set_expressions td_empty fs)) vals v = Val x.
+Proof.
+  intros Hlay Hv HB Hv0 Hroom.
+  destruct (build_inv fs Hlay) as [_ [[-> Ht]|[Hwf Hm]]].
+  - simpl. eexists; reflexivity.
+  - apply (total_wf _ vals B v Hwf Hv HB Hv0 Hroom).
+Qed.
+
+(* ------------------------------------------------------------------ *)
+(** * Non-vacuity: a concrete layout, inserted out of order, with one
+      adjacent pair (3600-7200, 7200-10800) and one gap (10800-14400). *)
+
+Definition ex_fs : list (Z * Z * nat) :=
+  [(14400, 18000, 3%nat); (3600, 7200, 1%nat); (7200, 10800, 2%nat)]%Z.
+
+Definition ex_vals (k : nat) : Q :=
+  match k with 0%nat => 600 | 1%nat => 1200 | 2%nat => 2400 | _ => 300 end.
+
+Example ex_layout_ok : layout_ok ex_fs.
+Proof.
+  split; [|split].
+  - unfold ex_fs. repeat constructor; try (unfold max_time; lia); try reflexivity; discriminate.
+  - unfold ex_fs. repeat constructor; simpl; lia.
+  - intros f g Hf Hg. unfold ex_fs in Hf, Hg. simpl in Hf, Hg.
+    destruct Hf as [<-|[<-|[<-|[]]]]; destruct Hg as [<-|[<-|[<-|[]]]]; simpl; unfold week; lia.
+Qed.
+
+Example ex_vals_ok : vals_ok ex_vals.
+Proof. intros [|[|[|k]]]; simpl; lra. Qed.
+
+Example ex_accepted : snd (set_expressions td_empty ex_fs) = [SetOk; SetOk; SetOk].
+Proof. vm_compute. reflexivity. Qed.
+
+(* the built list: default, frame 1, empty default, frame 2, default (the gap),
+   frame 3, default up to max_time *)
+Example ex_elems : td_elems (built ex_fs) =
+  [mkElem 0 3600 0; mkElem 3600 7200 1; mkElem 7200 7200 0; mkElem 7200 10800 2;
+   mkElem 10800 14400 0; mkElem 14400 18000 3; mkElem 18000 max_time 0]%Z.
+Proof. vm_compute. reflexivity. Qed.
+
+(* departure 7000 in frame 1 (200 s left = 1/6 of 1200), the other 5/6 at
+   frame 2's 2400: 200 + 2000 *)
+Example ex_stitch_adjacent : tdres_eq (value_at_value (built ex_fs) ex_vals 7000) (Val 2200).
+Proof. vm_compute. reflexivity. Qed.
+
+(* departure 10700 in frame 2 (100 s = 1/24 of 2400), the other 23/24 in the
+   gap at the default 600: 100 + 575 *)
+Example ex_stitch_gap : tdres_eq (value_at_value (built ex_fs) ex_vals 10700) (Val 675).
+Proof. vm_compute. reflexivity. Qed.
+
+(* departure 14300 in the gap (100 s = 1/6 of 600), the other 5/6 at frame 3's 300 *)
+Example ex_stitch_into_frame : tdres_eq (value_at_value (built ex_fs) ex_vals 14300) (Val 350).
+Proof. vm_compute. reflexivity. Qed.
+
+Example ex_lookup :
+  expression_at_value (built ex_fs) 7000 = 1%nat /\
+  expression_at_value (built ex_fs) 7200 = 2%nat /\
+  expression_at_value (built ex_fs) (21599 # 2) = 2%nat /\
+  expression_at_value (built ex_fs) 12000 = 0%nat /\
+  expression_at_value (built ex_fs) 14400 = 3%nat.
+Proof. vm_compute. repeat split. Qed.
+
+(* FIFO instance on real values: 7000 + 2200 <= 10700 + 675 *)
+Example ex_fifo_instance : 7000 + 2200 <= 10700 + 675.
+Proof. lra. Qed.
+
+(* the hypotheses of the theorems are satisfiable together: totality applied
+   to the concrete layout *)
+Example ex_total_instance : exists x, value_at_value (built ex_fs) ex_vals 7000 = Val x.
+Proof.
+  apply (C17_total_proof ex_fs ex_vals 2400 7000 ex_layout_ok ex_vals_ok).
+  - intros [|[|[|k]]]; simpl; lra.
+  - lra.
+  - apply Qle_bool_iff. vm_compute. reflexivity.
+Qed.
